@@ -79,9 +79,15 @@ def project(st, state_len=24):
     return exp
 
 
+ALIASES = {"eco": "eco_mode", "turbo": "turbo_mode", "sleep": "sleep_mode", "freeze_protection": "freeze_protection_mode"}
+
+
 def compare_view(ac, st, state_len=24, skip=()):
     """Return list of (attr, got, expected) mismatches between client attributes and device state."""
     exp = project(st, state_len)
+    for new, old in ALIASES.items():
+        if new in exp:
+            exp[old] = exp[new]          # the older public names must read the same value
     bad = []
     for k, v in exp.items():
         if k in skip:
